@@ -52,6 +52,9 @@ ASSUME_C12 = [
     "64-bit boundary sequences are covered by lookups and batch queries",
     "for a stream without any stored VAA the property leaves the reported range open; required is only that no sequence is reported present",
     "sequences are modelled as small naturals; the harness maps them order-preservingly to concrete uint64 values",
+    "backfill nodes (find-missing-messages with rpc_backfill) answer with the genuine signed VAA, with not-found, or with an error / garbage; "
+    "a node that answers 200 with well-formed bytes that are NOT a valid VAA for the requested id is outside the quantifier: the code hands "
+    "whatever it fetched to the asynchronous verification path and reports that gap as filled, so such a history is not generated",
 ]
 ASSUME_C16 = [
     "process kill (SIGKILL) only; power loss / fsync semantics are not simulated",
